@@ -252,6 +252,7 @@ func certchainCase(run *vkit.Run, caseIx, j int) {
 			return
 		}
 		run.Count("certchain_committees_compared", 1)
+		run.Eval(1)
 		run.Count("certchain_compared_state_"+state, 1)
 		win := "steady"
 		if inWindow(i) {
